@@ -619,6 +619,7 @@ func init() {
 				deep = owners[6+r.n(3)] // a cell that will carry 9-12 keys
 			}
 			nops := 8 + r.n(20)
+			ptrN := 0
 			for i := 0; i < nops; i++ {
 				o := owners[r.n(len(owners))]
 				k := keys[r.n(len(keys))]
@@ -630,6 +631,14 @@ func init() {
 					v := fmt.Sprintf("u%d", r.n(50))
 					if r.chance(1, 5) {
 						v = "nil"
+					}
+					if r.chance(1, 4) {
+						// a pointer: a fresh allocation every time (all with equal payloads), sometimes an earlier one again
+						ptrN++
+						v = fmt.Sprintf("P%d", c*1000+ptrN)
+						if r.chance(1, 3) && ptrN > 1 {
+							v = fmt.Sprintf("P%d", c*1000+1+r.n(ptrN-1))
+						}
 					}
 					g.do(fmt.Sprintf("setprop %s %s %s", o, k, v))
 					co := canon(o)
@@ -1029,6 +1038,9 @@ func init() {
 									}
 								}
 								rawDecor = showDecor(d)
+								// how a never-completed decoration renders (or fails to) is no property's business;
+								// that it does so the same way every time is, and the oracle below keeps saying so
+								g.do("leftdomain")
 							}
 							g.do("setdecor " + w + " " + rawDecor)
 							key = "text/raw"
